@@ -104,6 +104,16 @@ func c09Splits(r *core.Run) {
 		}
 	}
 	key := pickKey(t, c)
+	// the file may already carry a signature (re-signing after a key roll-over,
+	// a pipeline that runs twice): made with the same or with the other key
+	resign := ""
+	// (not xap: relic's zip transform looks for the end-of-central-directory
+	// record at the very end of the file and so refuses a XAP that carries a
+	// signature trailer, standalone and remote alike - re-signing a XAP is not
+	// something relic can do; not pgp: its output is not the input format)
+	if !(c.PGP && c.Mod == "pgp") && c.Mod != "xap" && t.Chance(1, 4, "already-signed-input") {
+		resign = core.Pick(t, "first-signature-key", "same", "other")
+	}
 	nsubmit := 2 + t.Choose(3, "nsubmits")
 	pgpKeys := openpgp.EntityList{}
 	for _, id := range []string{"sign-rsa-a", "sign-rsa-b"} {
@@ -122,6 +132,7 @@ func c09Splits(r *core.Run) {
 	var standaloneMD []byte
 	var standaloneErr, standaloneVerifyErr error
 	digestUnstable := false
+	var presignErr error
 	var idents map[string]*world.Identity
 	w := world.Run(r, world.Options{Cooperative: true, MaxSteps: 800000}, func(w *world.World) {
 		cfg := &config.Config{Server: &config.ServerConfig{TokenCheckInterval: 3600, TokenCheckTimeout: 5}, Clients: map[string]*config.ClientConfig{}}
@@ -139,6 +150,22 @@ func c09Splits(r *core.Run) {
 		h := srv.Handler()
 		w.Sleep(time.Second)
 
+		if resign != "" {
+			first := keyTarget[key]
+			if resign == "other" {
+				first = map[string]string{"rsa1": "rsa2", "rsa2": "rsa1", "ec1": "ec2", "ec2": "ec1"}[first]
+			}
+			if err := c.presign(idents[first], first, pgpKeys); err == nil {
+				r.Probe("already-signed-input")
+			} else if strings.HasPrefix(err.Error(), "sign: ") {
+				// the module rejects this key/digest/option combination; the
+				// unsigned file is used and step 3 sees the same rejection
+				resign = ""
+			} else {
+				presignErr = err
+				return
+			}
+		}
 		// --- 1. the client-side transform can be read repeatedly ---
 		mod := signers.ByName(c.Mod)
 		in := auxPath(c.File)
@@ -207,15 +234,15 @@ func c09Splits(r *core.Run) {
 			world.Recv(w, dA)
 			world.Recv(w, dB)
 			r.Fault("overlapping-transform-readers")
-			if eA != nil || eB != nil {
-				r.Failf("C09.transform-not-repeatable", c.Mod+"/overlap-error", "reading two overlapping transform streams failed: %v / %v", eA, eB)
-			} else {
-				if !bytes.Equal(allB, stream) {
-					r.Failf("C09.transform-not-repeatable", c.Mod+"/overlap", "the %s transform read while an earlier one was still being drained yields different bytes (%d vs %d, first difference at %d)", c.Mod, len(allB), len(stream), firstDiff(allB, stream))
-				}
-				if a := append(head, restA...); !bytes.Equal(a, stream) {
-					r.Failf("C09.transform-not-repeatable", c.Mod+"/overlap-old", "the earlier %s transform stream was disturbed by a later one (%d vs %d bytes, first difference at %d)", c.Mod, len(a), len(stream), firstDiff(a, stream))
-				}
+			// only the new stream matters: the old one belongs to an attempt
+			// that has been given up, nobody uses what it still delivers
+			if eB != nil {
+				r.Failf("C09.transform-not-repeatable", c.Mod+"/overlap-error", "reading the %s transform while an earlier stream of it was still being drained failed: %v (the earlier one: %v)", c.Mod, eB, eA)
+			} else if !bytes.Equal(allB, stream) {
+				r.Failf("C09.transform-not-repeatable", c.Mod+"/overlap", "the %s transform read while an earlier one was still being drained yields different bytes (%d vs %d, first difference at %d)", c.Mod, len(allB), len(stream), firstDiff(allB, stream))
+			}
+			if a := append(head, restA...); eA != nil || !bytes.Equal(a, stream) {
+				r.Probe("abandoned-stream-disturbed")
 			}
 		}
 
@@ -320,6 +347,10 @@ func c09Splits(r *core.Run) {
 	}
 	if len(w.PanicsLogged()) > 0 {
 		r.Failf("C09.panic", c.Mod, "a handler panicked: %s", trunc(w.PanicsLogged()[0], 300))
+	}
+	if presignErr != nil {
+		r.Failf("C09.standalone-failed", c.Mod+"/first-signature", "standalone signing of the unsigned %s does not yield a verifiable file: %v", c.File, presignErr)
+		return
 	}
 	size := "small"
 	if len(c.Input) > 1<<20 {
